@@ -18,7 +18,8 @@ Definition run_minmax_neg := run_mode_neg minmax_prov (fun a => (1 - a)%Q) (fun 
 Definition run_dnf_neg := run_mode_neg dnf_prov dnf_negate (fun t => t).
 Definition run_tt_neg fuel rules nrules facts (seeds : list (fact * Q)) :=
   let n := N.of_nat (length seeds) in
-  run_mode_neg (tt_prov n) (fun t => N.ldiff (tt_full n) t) (fun t => [(t, 0)]) fuel rules nrules facts seeds.
+  (* the table itself is not rendered: reading back and printing 2^n-bit numbers dominates the run time for n >= 10 *)
+  run_mode_neg (tt_prov n) (fun t => N.ldiff (tt_full n) t) (fun _ => []) fuel rules nrules facts seeds.
 
 (* Spec: the facts of one world *)
 Definition neg_step (closure : list fact) (nrules : list nrule) : list fact :=
